@@ -53,12 +53,12 @@ func (bh *Header) DecodeBinary(r io.Reader) error {
 		return errors.New("sam: invalid text length")
 	}
 	text := make([]byte, lText)
-	n, err := r.Read(text)
-	if err != nil {
+	n, err := io.ReadFull(r, text)
+	if err != nil && n != int(lText) {
+		if err == io.ErrUnexpectedEOF {
+			return errors.New("sam: truncated header")
+		}
 		return err
-	}
-	if n != int(lText) {
-		return errors.New("sam: truncated header")
 	}
 	err = bh.UnmarshalText(text)
 	if err != nil {
@@ -104,8 +104,8 @@ func readRefRecords(r io.Reader, n int32) ([]*Reference, error) {
 			return nil, errors.New("sam: invalid name length")
 		}
 		name := make([]byte, lName)
-		n, err := r.Read(name)
-		if err != nil {
+		n, err := io.ReadFull(r, name)
+		if err != nil && err != io.ErrUnexpectedEOF {
 			return nil, err
 		}
 		if n != int(lName) || name[n-1] != 0 {
